@@ -97,10 +97,19 @@ PlainSet == CoreSet \cup ExtraSet
 \*   cyc_* deep_* : a cyclic array / object; an array / object nested DeepLevels deep (beyond the host's recursion limit)
 \*   t_*        : texts of HostileSize characters: decimal digits, with a sign, radix-prefixed (hex, octal, binary), a fraction, an
 \*                exponent of many digits (positive, negative), nested brackets / braces (JSON text), nested parentheses (a pattern)
-MutKinds == <<"push", "pop", "len0", "splice", "sort", "rev", "store", "shift">>
+\*   (round 4) mutation kind x CONTAINER kind: the eight kinds above change an array; oadd / odel change the SET OF PROPERTIES of any
+\*                object (add a property with a new name, delete the first enumerable one) - the receiver, the callback's this (the
+\*                holder a reviver / replacer / toJSON walks), the container whose member the hook is.
+\*   hobj_<m>   : a plain object one member of which has the hooks (valueOf / toString / toJSON) and another is a getter, all adding
+\*                a property to / deleting one from the object itself: JSON.stringify, Object.keys / values / entries / assign /
+\*                defineProperties, for-in run them while walking the object's property table
+ArrMutKinds == <<"push", "pop", "len0", "splice", "sort", "rev", "store", "shift">>
+ObjMutKinds == <<"oadd", "odel">>
+MutKinds == ArrMutKinds \o ObjMutKinds
 MutClasses == {"fn_" \o mk : mk \in SeqSet(MutKinds)}
-HookKinds == {"push", "len0"}
-HookClasses == {"hook_" \o hk : hk \in HookKinds} \cup {"harr_" \o hk : hk \in HookKinds}
+HookKinds == {"push", "len0"} \cup SeqSet(ObjMutKinds)
+HobjClasses == {"hobj_" \o hk : hk \in SeqSet(ObjMutKinds)}
+HookClasses == {"hook_" \o hk : hk \in HookKinds} \cup {"harr_" \o hk : hk \in HookKinds} \cup HobjClasses
 StructClasses == {"cyc_arr", "cyc_obj", "deep_arr", "deep_obj"}
 TextClasses == {"t_dec", "t_neg", "t_hex", "t_oct", "t_bin", "t_frac", "t_exp", "t_nexp", "t_brackets", "t_braces", "t_parens"}
 RadixTexts == {"t_hex", "t_oct", "t_bin"}
@@ -163,6 +172,7 @@ VariantReceivers == {"arr0", "str0", "numnan", "numninf", "nume21"}
 \* hostile receivers: a cyclic array / object, a deep array / object, an array whose elements' hooks mutate it, a string of HostileSize
 \* digits, the integer 2^53 and the largest double (intermediate results of * and ** leave the doubles)
 HostileReceivers == {"r_cyc_arr", "r_cyc_obj", "r_deep_arr", "r_deep_obj", "r_harr_push", "r_harr_len0", "r_digits", "r_p53", "r_max"}
+                    \cup {"r_hobj_" \o hk : hk \in SeqSet(ObjMutKinds)}
 IndexedReceivers == {"arr", "str", "tarr", "f64", "abuf"}
 PrimReceivers == {"str", "num", "int", "bool", "str0", "numnan", "numninf", "nume21", "r_digits", "r_p53", "r_max"}
 CallableReceivers == {"fn", "arrow", "native"}
@@ -193,7 +203,12 @@ Operators == {
   [n |-> "shl", ar |-> 1, g |-> "prim", t |-> "@R << @0"],              [n |-> "shru", ar |-> 1, g |-> "prim", t |-> "@R >>> @0"],
   [n |-> "and", ar |-> 1, g |-> "prim", t |-> "@R & @0"],               [n |-> "neg", ar |-> 0, g |-> "prim", t |-> "-@R"],
   [n |-> "not", ar |-> 0, g |-> "prim", t |-> "~@R"],                   [n |-> "inc", ar |-> 0, g |-> "prim", t |-> "var x = @R; x++; ++x"],
-  [n |-> "powself", ar |-> 0, g |-> "prim", t |-> "@R ** @R * @R"]}
+  [n |-> "powself", ar |-> 0, g |-> "prim", t |-> "@R ** @R * @R"],
+  \* (round 4) an UNCAUGHT throw of the receiver: the exception leaves eval through the embedding API, which reads the thrown value
+  [n |-> "throw", ar |-> 0, g |-> "any", t |-> "throw @R"],
+  \* (round 4) the receiver in the roles the reflective built-ins give an object: prototype, property descriptor, source, target
+  [n |-> "asproto", ar |-> 0, g |-> "any", t |-> "var o = Object.create(@R); 'y' in o; o.y; o.y = 1; for (var k in o) { o[k]; } throw o"],
+  [n |-> "asdesc", ar |-> 0, g |-> "any", t |-> "Object.defineProperty({}, 'x', @R)"]}
 \* ---- the use of a call's result: when a call of the grid returns an object, these statements are run on it (@U) in the same
 \*      context, each under its own try / catch (a JSError of one does not stop the next; a host exception escapes): every element is
 \*      read and stored back, one element is stored beyond the end, the object is enumerated and converted, and the methods that
@@ -205,6 +220,20 @@ UseOps == <<"for (var i = 0; i < @U.length && i < 64; i++) { var t = @U[i]; @U[i
            "if (typeof @U.sort === 'function') { @U.sort(); }", "if (typeof @U.slice === 'function') { @U.slice(1); }",
            "if (typeof @U.exec === 'function') { @U.exec('aa'); @U.lastIndex = -1; @U.test('aa'); }",
            "if (typeof @U.getTime === 'function') { @U.toISOString(); }", "if (typeof @U === 'function') { @U(); new @U(); }">>
+\* (round 4) The use of a returned object is widened from the 14 statements above to the whole operator space and to the argument
+\* positions of the reflective built-ins:
+\*   UseOpForms : every operator form of the group "any" (element read / store, delete, in, instanceof, comparison, conversion,
+\*                enumeration ...) with the RESULT as its receiver @R and benign operands (a name, an index; a stored value)
+\*   UseArgShapes x UseNamespaces : the result as first / second / third argument (and as both) of EVERY function of the namespaces
+\*                whose functions take objects as prototypes, descriptors, sources, targets, replacers (the functions are discovered at
+\*                run time like everything else in the grid: @F = one discovered function of the namespace)
+\*   UseFinal   : statements that are NOT under a try / catch (each is an evaluation of its own, after the others): an uncaught throw
+\*                of the result - the embedding API reads the thrown value's properties when it builds the JSError
+UseOperands(nn) == CASE nn = 0 -> {<<>>} [] nn = 1 -> {<<"sx">>, <<"zero">>} [] OTHER -> {<<"sx", "one">>, <<"zero", "one">>}
+UseOpSet == UNION {{[n |-> op.n, t |-> op.t, a |-> av] : av \in UseOperands(op.ar)} : op \in {ox \in Operators : ox.g = "any" /\ ox.n # "throw"}}
+UseNamespaces == {"Object", "JSON"}
+UseArgShapes == <<"@F(@U)", "@F({}, @U)", "@F({}, 'x', @U)", "@F(@U, @U)">>
+UseFinal == <<"throw @U;", "var o = Object.create(@U); 'y' in o; throw o;">>
 HugeVals == {"p31", "p53", "e21"}
 \* Calls that legitimately allocate memory proportional to a numeric argument are not made with 2^31: gigabytes that a host can
 \* provide (whether it does is a property of the machine, and the replay would really allocate them).  They ARE made with 2^53 and 1e21:
@@ -223,6 +252,9 @@ GridItems == {GridItem("vec", "", av, VecGroups(av), Len(av)) : av \in AllVector
              \cup {GridItem("recv", rn, <<>>, RecvGroups(rn), 0) : rn \in AllReceivers}
              \cup {GridItem("op", op.n, <<op.t>>, <<op.g>>, op.ar) : op \in Operators}
              \cup {GridItem("use", "", <<UseOps[ui]>>, <<>>, ui) : ui \in 1..Len(UseOps)}
+             \cup {GridItem("useop", uo.n, <<uo.t>>, uo.a, Len(uo.a)) : uo \in UseOpSet}
+             \cup {GridItem("usearg", ns, <<UseArgShapes[ui]>>, <<>>, ui) : ns \in UseNamespaces, ui \in 1..Len(UseArgShapes)}
+             \cup {GridItem("usefin", "", <<UseFinal[ui]>>, <<>>, ui) : ui \in 1..Len(UseFinal)}
              \cup {GridItem("huge", hc, <<>>, <<>>, 0) : hc \in Huge} \cup {GridItem("allocating", fc, <<>>, <<>>, 0) : fc \in Allocating}
              \cup {GridItem("compiling", fc, <<>>, <<>>, 0) : fc \in Compiling} \cup {GridItem("nested", tc, <<>>, <<>>, 0) : tc \in NestedTexts}
              \cup {GridItem("param", "HostileSize", <<>>, <<>>, HostileSize), GridItem("param", "DeepLevels", <<>>, <<>>, DeepLevels),
@@ -258,7 +290,19 @@ GridLaw == ph = "start" =>
              /\ \A kc \in SeqSet(KeyClasses) : <<kc>> \in ArgVectors /\ <<kc, "zero">> \in ArgVectors /\ OpPair(<<kc, "zero">>) /\ SeqHas(VecGroups(<<kc>>), "variants")
              /\ \A op \in Operators : op.n \in {"get", "set", "set1", "delete", "in"} => op.g = "any"
              /\ PlainSet \cap HostileSet = {}
-             /\ Cardinality(HostileSet) = Len(MutKinds) + 2 * Cardinality(HookKinds) + Cardinality(StructClasses) + Cardinality(TextClasses)
+             /\ Cardinality(HostileSet) = Len(MutKinds) + 2 * Cardinality(HookKinds) + Len(ObjMutKinds) + Cardinality(StructClasses) + Cardinality(TextClasses)
+             \* (round 4) every mutation kind of either container kind has its callback and its hook object; every object mutation has its
+             \* self-mutating object, as an argument and as a receiver; the widened use contains every operator form that takes any receiver,
+             \* with every operand vector of its arity, the result in every argument position of a shape, and an uncaught statement
+             /\ SeqSet(ArrMutKinds) \cap SeqSet(ObjMutKinds) = {} /\ Len(ObjMutKinds) >= 2
+             /\ \A mk \in SeqSet(ObjMutKinds) : /\ {"fn_" \o mk, "hook_" \o mk, "harr_" \o mk, "hobj_" \o mk} \subseteq HostileSet
+                                                 /\ ("r_hobj_" \o mk) \in HostileReceivers /\ ("fn_" \o mk) \in TinySet
+             /\ \A op \in Operators : (op.g = "any" /\ op.n # "throw") => \E uo \in UseOpSet : uo.n = op.n /\ Len(uo.a) = op.ar
+             /\ \A uo \in UseOpSet : \A ai \in 1..Len(uo.a) : uo.a[ai] \in PlainSet
+             /\ \E op \in Operators : op.g = "any" /\ HasSub(op.t, "throw @R")
+             /\ \A ui \in 1..Len(UseArgShapes) : HasSub(UseArgShapes[ui], "@U") /\ HasSub(UseArgShapes[ui], "@F(")
+             /\ \A ui \in 1..Len(UseFinal) : HasSub(UseFinal[ui], "@U") /\ HasSub(UseFinal[ui], "throw")
+             /\ UseNamespaces \subseteq KindReceivers
              /\ HookKinds \subseteq SeqSet(MutKinds) /\ RadixTexts \subseteq TextClasses /\ NestedTexts \subseteq TextClasses /\ HostileLeads \subseteq PlainSet /\ TinySet \subseteq ArgSet
              /\ \A hc \in HostileSet : \A ld \in HostileLeads \ {"zero"} : <<ld, hc>> \in ArgVectors
              /\ \A mc \in MutClasses : \A rn \in HostileReceivers : \E av \in ArgVectors : av = <<mc>> /\ SeqHas(VecGroups(av), "hostile")
@@ -788,13 +832,18 @@ JudgeToks(r) ==
        ELSE IF ParseStmtsD(r.toks, ParserDevs).ok THEN Mis(CHOOSE dd \in ParserDevs : TRUE, "malformed token sequence accepted (as-is parser rules)")
        ELSE Mis("", "malformed token sequence accepted")
 \* a call of the grid (a method, a global function, an operator form); lex = the outcome of the use of its result (o = "none" when the
-\* call did not return an object)
+\* call did not return an object), fin = the outcomes of the uncaught use statements (empty when there was no use)
 JudgeCall(r) ==
   IF ~CallSupported(r.fname, r.args) THEN [v |-> "unsupported", dev |-> "", why |-> "allocating call with a huge argument / compiling call with a nested text"]
   ELSE LET ty == Typing(r, <<0>>) IN
        IF ty.v # "pass" THEN ty
-       ELSE IF r.lex.o = "none" \/ InJSErrorFamily(r.lex) THEN Pass
-       ELSE Mis(HostDevOf([r EXCEPT !.out = r.lex]), "use of the object a call returned: outcome outside the JSError family")
+       ELSE IF r.lex.o # "none" /\ ~InJSErrorFamily(r.lex)
+            THEN Mis(HostDevOf([r EXCEPT !.out = r.lex]), "use of the object a call returned: outcome outside the JSError family")
+       \* fin = the outcomes of the uncaught use statements (UseFinal), each an evaluation of its own
+       ELSE LET badf == {fi \in 1..Len(r.fin) : ~InJSErrorFamily(r.fin[fi])} IN
+            IF badf = {} THEN Pass
+            ELSE Mis(HostDevOf([r EXCEPT !.out = r.fin[CHOOSE fi \in badf : \A fj \in badf : fi <= fj]]),
+                     "uncaught use of the object a call returned: outcome outside the JSError family")
 
 \* a numeric literal of many digits (fname = form, args = <<embedding, digit>>) is a number
 JudgeLong(r) ==
